@@ -87,7 +87,10 @@ func (b *PrftBox) Type() string {
 
 // Size - return calculated size
 func (b *PrftBox) Size() uint64 {
-	return uint64(boxHeaderSize + 20 + 4*int(b.Version))
+	if b.Version == 0 {
+		return uint64(boxHeaderSize + 20)
+	}
+	return uint64(boxHeaderSize + 24) // 64-bit media time for all other versions
 }
 
 // Encode - write box to w
